@@ -91,8 +91,12 @@ class GaussianMixture:
         best_params = None
         best_lower_bound = -np.inf
 
+        # Use a private generator: seeding numpy's global stream here would reset it for
+        # the caller (every sampler iteration after a clustering fit replayed the same numbers)
         if self.random_state is not None:
-            np.random.seed(self.random_state)
+            self._rng = np.random.RandomState(self.random_state)
+        else:
+            self._rng = np.random
 
         for init in range(self.n_init):
             # Initialize parameters
@@ -141,7 +145,8 @@ class GaussianMixture:
 
         # First center: weighted random sample
         cumsum = np.cumsum(sample_weight)
-        r = np.random.rand() * cumsum[-1]
+        rng = getattr(self, "_rng", np.random)
+        r = rng.rand() * cumsum[-1]
         means[0] = X[np.searchsorted(cumsum, r)]
 
         # Remaining centers
@@ -154,7 +159,7 @@ class GaussianMixture:
             probabilities /= np.sum(probabilities)
 
             cumsum = np.cumsum(probabilities)
-            r = np.random.rand() * cumsum[-1]
+            r = rng.rand() * cumsum[-1]
             means[k] = X[np.searchsorted(cumsum, r)]
 
         # Initialize responsibilities and compute initial parameters
